@@ -12,6 +12,7 @@ When(k, h, f) ==
   ELSE CASE k = "SB20" /\ h = "ctor" /\ f \in {"dek", "mac", "nonce"} -> "import"           \* default argument SBV2xAdvancedParams() evaluated once
          [] k = "SB21" /\ h = "ctor" /\ f \in {"dek", "mac", "nonce", "hpad"} -> "import"   \* the same, padding included
          [] k = "MBI" /\ h = "ctor" /\ f = "ctr_iv" -> "import"                              \* class-level NEEDED_MEMBERS value
+         [] k = "SB21" /\ h = "config" /\ f = "hpad" -> "construct"                         \* drawn with the advanced parameters, seen in the export
          [] k = "HABRT" /\ h = "ctor" /\ f = "dek" -> "const"                                \* "empty bytes = random key" is the all-zero key
          [] f \in Late(k) -> "export"
          [] OTHER -> "construct"
@@ -27,6 +28,8 @@ Drawn(k, h, ex, f, at) == IF f \in ex THEN UserVal(k, f)
                           ELSE CASE When(k, h, f) = "import" -> imp[<<k, h, f>>]
                                  [] When(k, h, f) = "const" -> Const
                                  [] OTHER -> at + FieldNo(k, f)
+\* a late field that was drawn at construction: one value per artefact, stable over its exports
+AtConstruction(a, f) == 10000 + a * Step + FieldNo(Art(a).kind, f)
 IConstruct == /\ imported /\ Len(arts) < MaxArts
               /\ \E m \in UseMenu :
                    RecordConstruct(m.kind, m.how, ToSet(m.ex),
@@ -35,7 +38,9 @@ IConstruct == /\ imported /\ Len(arts) < MaxArts
 IExport == /\ nexp < MaxExp
            /\ \E a \in live :
                 RecordExport(a, [f \in Fields(Art(a).kind) |->
-                                   IF f \in Late(Art(a).kind) THEN Drawn(Art(a).kind, Art(a).how, Art(a).ex, f, draws) ELSE Art(a).val[f]])
+                                   IF f \notin Late(Art(a).kind) THEN Art(a).val[f]
+                                   ELSE IF When(Art(a).kind, Art(a).how, f) = "construct" THEN AtConstruction(a, f)
+                                   ELSE Drawn(Art(a).kind, Art(a).how, Art(a).ex, f, draws)])
            /\ draws' = draws + Step /\ nexp' = nexp + 1 /\ UNCHANGED imp
 IRestart == proc < MaxProc /\ imported /\ Restart /\ imp' = [s \in {} |-> 0] /\ UNCHANGED <<draws, nexp>>
 INext == IImport \/ IConstruct \/ IExport \/ IRestart
